@@ -42,6 +42,21 @@ pub fn check(c: &Case) -> CheckResult {
     ok(c.r > 1 || c.p > 1 || (c.dk_len != 32 && c.dk_len != 64), format!("N=2^{}{}{}", if c.log_n <= 5 { "1-5" } else if c.log_n <= 10 { "6-10" } else { "11-15" }, if c.r != c.p { "/r!=p" } else { "" }, if c.dk_len % 32 != 0 { "/dk%32!=0" } else { "" }))
 }
 
+/// The same comparison while the allocator hands out byte buffers at odd addresses (an alignment-1 request is owed no
+/// more): the result must not depend on where the heap happens to place the working blocks.
+pub struct Misaligned; impl Misaligned { pub fn on() -> Self { crate::alloc::misalign(true); Misaligned } } impl Drop for Misaligned { fn drop(&mut self) { crate::alloc::misalign(false); } }
+pub fn check_misaligned(c: &Case) -> CheckResult {
+    let (pw, salt) = (c.pw(), c.salt());
+    let want = kspec::scrypt(&pw, &salt, c.n() as usize, c.r as usize, c.p as usize, c.dk_len);
+    let (got, odd) = { let _m = Misaligned::on(); let probe: Vec<u8> = Vec::with_capacity(64); let odd = probe.as_ptr() as usize & 1 == 1; let (pw2, salt2) = (pw.to_vec(), salt.to_vec()); (kc::scrypt(&pw2, &salt2, c.n(), c.r, c.p, c.dk_len), odd) };
+    ensure!(odd, "harness: the allocator did not misalign byte buffers");
+    ensure!(got == want, "kestrel_crypto::scrypt differs from RFC 7914 when the heap hands out byte buffers at odd addresses (N={} r={} p={} dkLen={} |pw|={} |salt|={})", c.n(), c.r, c.p, c.dk_len, c.pw_len, c.salt_len);
+    let mut buf = vec![0xA5u8; c.dk_len + 128];
+    { let _m = Misaligned::on(); unsafe { crate::ffi::scrypt(pw.as_ptr(), pw.len(), salt.as_ptr(), salt.len(), c.n(), c.r, c.p, buf.as_mut_ptr().add(63), c.dk_len); } }
+    ensure!(buf[63..63 + c.dk_len] == want[..] && buf[..63].iter().all(|&b| b == 0xA5) && buf[63 + c.dk_len..].iter().all(|&b| b == 0xA5), "exported C scrypt with an odd output address and odd-address heap buffers: wrong value or bytes written outside the request (N={} r={} p={} dkLen={})", c.n(), c.r, c.p, c.dk_len);
+    ok(true, format!("misaligned/N=2^{}", if c.log_n <= 5 { "1-5" } else if c.log_n <= 10 { "6-10" } else { "11-15" }))
+}
+
 fn pipe(cmd: &mut std::process::Command, input: &str) -> Option<Vec<String>> {
     let mut ch = cmd.stdin(std::process::Stdio::piped()).stdout(std::process::Stdio::piped()).stderr(std::process::Stdio::piped()).spawn().ok()?;
     let mut si = ch.stdin.take()?; let inp = input.to_string();
@@ -73,13 +88,15 @@ pub fn check_batch(b: &Batch) -> CheckResult {
 }
 
 pub fn run(ctx: &Ctx) {
-    set_rule("C18", "(password 0..200 B, salt 0..200 B, N = 2^(1..15), r 1..16, p 1..8, dkLen 1..200, 128*N*r within the memory bound) biased to small N, r != p, dkLen in {1,31,32,33,63,64,65} and password lengths around 64: kestrel_crypto::scrypt == independent RFC 7914 implementation; the same case through the exported extern \"C\" function into a buffer framed by 64 guard bytes on each side; a batch through OpenSSL's scrypt (hashlib) and through a C program that includes kestrel-crypto.h and links the static library built from the working tree (ASan, exact-size heap buffers). Non-trivial = r > 1 or p > 1 or dkLen not in {32, 64}; distinct by hash of the case");
+    set_rule("C18", "(password 0..200 B, salt 0..200 B, N = 2^(1..15), r 1..16, p 1..8, dkLen 1..200, 128*N*r within the memory bound) biased to small N, r != p, dkLen in {1,31,32,33,63,64,65} and password lengths around 64: kestrel_crypto::scrypt == independent RFC 7914 implementation; the same case through the exported extern \"C\" function into a buffer framed by 64 guard bytes on each side; the library and the exported function again while the counting allocator hands out every alignment-1 block at an odd address and the output pointer is odd; a batch through OpenSSL's scrypt (hashlib) and through a C program that includes kestrel-crypto.h and links the static library built from the working tree (ASan, exact-size heap buffers). Non-trivial = r > 1 or p > 1 or dkLen not in {32, 64}; distinct by hash of the case");
     ctx.assume("caller preconditions of the C function are respected (valid pointers, correct lengths, N a power of two > 1)");
     let mem = if ctx.quick() { 8u64 << 20 } else { 64 << 20 };
     ctx.pbt("lib_and_ffi_vs_rfc7914", ctx.n(6_000, 150_000), || strat(mem), check);
     // RFC 7914 / production parameter sets, deterministically
     let fixed: Vec<Case> = vec![Case { seed: 1, pw_len: 0, salt_len: 0, log_n: 4, r: 1, p: 1, dk_len: 64 }, Case { seed: 2, pw_len: 8, salt_len: 4, log_n: 10, r: 8, p: 16, dk_len: 64 }, Case { seed: 3, pw_len: 13, salt_len: 14, log_n: 14, r: 8, p: 1, dk_len: 64 }, Case { seed: 4, pw_len: 7, salt_len: 32, log_n: 15, r: 8, p: 1, dk_len: 32 }, Case { seed: 5, pw_len: 100, salt_len: 32, log_n: 15, r: 8, p: 1, dk_len: 32 }, Case { seed: 6, pw_len: 5, salt_len: 5, log_n: 15, r: 16, p: 2, dk_len: 200 }, Case { seed: 7, pw_len: 9, salt_len: 9, log_n: 2, r: 1, p: 1, dk_len: 8161 }, Case { seed: 8, pw_len: 64, salt_len: 9, log_n: 3, r: 2, p: 1, dk_len: 16400 }];
     ctx.sse_vec("fixed_parameter_sets", "RFC 7914 parameter sets and kestrel's production parameters (32768, 8, 1)", fixed.clone(), check);
+    ctx.sse_vec("fixed_parameter_sets_odd_addresses", "the same parameter sets while the allocator places byte buffers at odd addresses", fixed.clone(), check_misaligned);
+    ctx.pbt("odd_address_byte_buffers", ctx.n(1_500, 40_000), || strat(mem), check_misaligned);
     // state must not leak between calls: after a call that was refused (panic on dkLen = 0 / N not a power of two), valid calls still give the RFC value
     ctx.sse_vec("valid_call_after_refused_call", "scrypt with invalid parameters (caught panic) followed by the fixed parameter sets", vec![Case { seed: 11, pw_len: 3, salt_len: 3, log_n: 3, r: 1, p: 1, dk_len: 16 }, Case { seed: 12, pw_len: 9, salt_len: 0, log_n: 5, r: 2, p: 2, dk_len: 40 }], |c: &Case| {
         for bad in 0..3 { let _ = crate::core::guard(|| match bad { 0 => kc::scrypt(b"x", b"y", 16, 1, 1, 0), 1 => kc::scrypt(b"x", b"y", 6, 1, 1, 8), _ => kc::scrypt(b"x", b"y", 16, 0, 1, 8) }); }
